@@ -236,13 +236,14 @@ def read_base(state, base, bidx, assume_types=True):
     val = z3.simplify(val) if _is_const_select(content['val']) else val
     if base.elem == 'float':
         tag = content['tag']
+        narrow = bool(base.meta.get('narrow'))
         if tag is None:
-            return SFloat(FIN, val)
+            return SFloat(FIN, val, narrow)
         t = z3.Select(tag, *zi)
         t = z3.simplify(t) if _is_const_select(tag) else t
         if assume_types and not isinstance(t, z3.IntNumRef):
             state.assume(SBool(z3.And(t >= 0, t <= 3)))
-        return SFloat(t, val)
+        return SFloat(t, val, narrow)
     if base.elem == 'int':
         v = SInt(val)
         if assume_types and not v.concrete and Mode.int_mode == 'math':
